@@ -35,7 +35,7 @@
 int reb_particle_diff(struct reb_particle p1, struct reb_particle p2){
     int differ = 0;
     differ = differ || (p1.x != p2.x);
-    differ = differ || (p1.y != p2.y);
+    differ = differ || (p1.y != p2.y && !(p1.y != p1.y && p2.y != p2.y)); // y is NaN in both: particle flagged for removal from the tree
     differ = differ || (p1.z != p2.z);
     differ = differ || (p1.vx != p2.vx);
     differ = differ || (p1.vy != p2.vy);
